@@ -334,6 +334,7 @@ template <class G> struct Harness {
         for (int i = 0; i < k; ++i) pthread_join(th[i], nullptr);
         if (freeRunning) pthread_barrier_destroy(&bar);
         ++executions;
+        progressTick(); // main thread only: the watchdog must see that schedules are being completed
         std::vector<Point> pts;
         int np = sch_npoints();
         for (int i = 0; i < np; ++i) { Point p; sch_trace(i, &p.running, &p.mask, &p.choice); pts.push_back(p); }
